@@ -16,22 +16,23 @@ def run(ctx, bins):
         n_rand = int((15000 if tier == "quick" else 150000) * budget)
         reps = int((1 if tier == "quick" else 6) * budget)
         depth = 3 if tier == "quick" else 4
-        jobs = []
+        jobs, profs = [], []
         for prof in [p for p in ("debug", "release") if p in bins]:
             for i in range(shards):
-                jobs.append(([bins[prof], "buf-random", "--seed", str(seed * 1000 + i), "--n", str(n_rand), "--depth", str(depth + (i % 2))], [bins["modelrun"], "buf"]))
+                jobs.append(([bins[prof], "buf-random", "--seed", str(seed * 1000 + i), "--n", str(n_rand), "--depth", str(depth + (i % 2))], [bins["modelrun"], "buf"])); profs.append(prof)
             for i in range(max(1, shards // 4)):
-                jobs.append(([bins[prof], "buf-codec", "--seed", str(seed * 1000 + 500 + i), "--n", str(max(1, reps))], [bins["modelrun"], "buf"]))
+                jobs.append(([bins[prof], "buf-codec", "--seed", str(seed * 1000 + 500 + i), "--n", str(max(1, reps))], [bins["modelrun"], "buf"])); profs.append(prof)
         out = {"mism": [], "stats": {}, "samples": [], "dist": {}, "abnormal": []}
-        for (rh, rm, o, err), job in zip(core.run_pipes(jobs), jobs):
+        for (rh, rm, o, err), job, prof in zip(core.run_pipes(jobs), jobs, profs):
             mism, stats, samples, dist = core.parse_model_out(o)
-            if rh != 0 or rm != 0: out["abnormal"].append("%s: harness rc=%s modelrun rc=%s %s" % (" ".join(job[0][1:]), rh, rm, err[-300:]))
+            for m in mism: m["prof"] = prof
+            if rh != 0 or rm != 0: out["abnormal"].append("%s [%s]: harness rc=%s modelrun rc=%s %s" % (" ".join(job[0][1:]), prof, rh, rm, err[-300:]))
             out["mism"] += mism; out["samples"] += samples[:2]
             for k, v in stats.items():
                 if isinstance(v, int): out["stats"][k] = out["stats"].get(k, 0) + v
             for k, v in dist.items(): out["dist"][k] = out["dist"].get(k, 0) + v
         return out
-    return core.cached("buf", [tier, seed, budget, sorted(bins)], go)
+    return core.cached("buf2", [tier, seed, budget, sorted(bins)], go)
 
 def absorb(ctx, res, direct_re, case_filter=None):
     import re
